@@ -569,3 +569,17 @@ package xy
 //@     invariant start == (idx == 0 ? 0 : line.ends[idx-1]) && fresh(calculator) && fresh(calculator.centSum) && len(calculator.centSum) >= 2 && calculator.stride == line.stride && calculator.layout == line.layout
 //@     invariant calculator.totalLength == lsum2(cells(line.flatCoords), off(line.flatCoords), cells(line.ends), off(line.ends), line.stride, idx)
 //@     invariant calculator.centSum[0] == msum2(cells(line.flatCoords), off(line.flatCoords), cells(line.ends), off(line.ends), line.stride, 0, idx) && calculator.centSum[1] == msum2(cells(line.flatCoords), off(line.flatCoords), cells(line.ends), off(line.ends), line.stride, 1, idx)
+
+// the centroid of a MultiPoint is the mean of its coordinates (sums of the first two ordinates over all points)
+//@ func MultiPointCentroid
+//@   floats real
+//@   lemmas mulCancel, mulCancel2, mulNonneg, mulMono
+//@   requires point != nil && wf2(point) && point.stride >= 2 && len(point.flatCoords) > 0 && whole(len(point.flatCoords), point.stride)
+//@   ensures len(res) == 2 && res[0] * real(cnt(len(point.flatCoords), point.stride)) == osum(cells(point.flatCoords), off(point.flatCoords), point.stride, 0, cnt(len(point.flatCoords), point.stride))
+//@   ensures res[1] * real(cnt(len(point.flatCoords), point.stride)) == osum(cells(point.flatCoords), off(point.flatCoords), point.stride, 1, cnt(len(point.flatCoords), point.stride))
+//@   modifies nothing
+//@   loop 1:
+//@     ghost m int = 0 step m + 1
+//@     invariant m >= 0 && i == mul(m, stride) && stride == point.stride && coords == point.flatCoords && i <= len(coords) && len(coords) == mul(cnt(len(coords), stride), stride) && mul(m + 1, stride) == mul(m, stride) + stride
+//@     invariant calc.ptCount == m && len(calc.centSum) == 2 && fresh(calc.centSum)
+//@     invariant calc.centSum[0] == osum(cells(coords), off(coords), stride, 0, m) && calc.centSum[1] == osum(cells(coords), off(coords), stride, 1, m)
